@@ -50,12 +50,17 @@ def check(repo: Repo, rep: Report) -> None:
     for mname in ("dispose", "release"):
         m = repo.fn(F, f"RefCountDisposable.{mname}")
 
-        def ev(n: ast.AST) -> Optional[str]:
+        # locals holding a copy of the underlying resource (`x = self.underlying_disposable`)
+        under = {"self.underlying_disposable"} | {t.id for s0 in sites(m) if isinstance(s0.node, ast.Assign)
+                                                  and u(s0.node.value) == "self.underlying_disposable"
+                                                  for t in s0.node.targets if isinstance(t, ast.Name)}
+
+        def ev(n: ast.AST, under=under) -> Optional[str]:
             if isinstance(n, ast.Assign) and any(field_of(t) == "is_disposed" for t in n.targets) \
                     and isinstance(n.value, ast.Constant) and n.value.value is True:
                 return "SET"
             if isinstance(n, ast.Call) and isinstance(n.func, ast.Attribute) and n.func.attr == "dispose" \
-                    and ("underlying" in (dotted(n.func.value) or "")):
+                    and (dotted(n.func.value) or "") in under:
                 return "UNDER"
             return None
         sets = [s for s in sites(m) if ev(s.node) == "SET"]
